@@ -668,7 +668,7 @@ func TestPropBuiltinExhaustive(t *testing.T) {
 				}
 			}
 		}
-		truthPool := []V{vNone, vFalse, vTrue, vInt(0), vInt(1), vStr(""), vStr("a"), vList(), vList(vInt(0)), vTuple()}
+		truthPool := []V{vNone, vFalse, vTrue, vInt(0), vInt(1), vStr(""), vStr("a"), vList(), vList(vInt(0)), vTuple(), vBytes(""), vBytes("a"), vBytes("ab"), vTuple(vNone), vRange(0, 0, 1), vRange(0, 1, 1)}
 		for _, l := range allLists(truthPool, vk.N(2, 3)) {
 			item++
 			if !vk.Mine(item) {
@@ -1109,7 +1109,7 @@ func TestPropInterpRandom(t *testing.T) {
 }
 
 func genElem(t *rapid.T, label string) V {
-	return rapid.SampledFrom([]V{vStr("a"), vStr("b"), vStr("c"), vStr("ab"), vInt(1), vInt(2), vNone, vList(vStr("a")), vTuple(vStr("a")), vStr("")}).Draw(t, label)
+	return rapid.SampledFrom([]V{vStr("a"), vStr("b"), vStr("c"), vStr("ab"), vInt(1), vInt(2), vNone, vList(vStr("a")), vTuple(vStr("a")), vStr(""), vBytes(""), vBytes("a"), vInt(0), vBool(false), vList(), vTuple()}).Draw(t, label)
 }
 
 func genList(t *rapid.T, label string, maxLen int) []V {
@@ -1285,7 +1285,7 @@ func TestPropBuiltinRandom(t *testing.T) {
 			c.Recv = V{K: rapid.SampledFrom([]string{"list", "tuple"}).Draw(t, "kind"), L: []V{}}
 			n := rapid.IntRange(0, 8).Draw(t, "n")
 			for i := 0; i < n; i++ {
-				c.Recv.L = append(c.Recv.L, rapid.SampledFrom([]V{vNone, vFalse, vTrue, vInt(0), vInt(3), vStr(""), vStr("x"), vList(), vList(vInt(0)), vTuple(), vBytes("")}).Draw(t, "e"))
+				c.Recv.L = append(c.Recv.L, rapid.SampledFrom([]V{vNone, vFalse, vTrue, vInt(0), vInt(3), vStr(""), vStr("x"), vList(), vList(vInt(0)), vTuple(), vBytes(""), vBytes("x"), vBytes("xy"), vRange(0, 0, 1), vRange(2, 5, 1)}).Draw(t, "e"))
 			}
 		default:
 			c.Recv = genIterable(t, 40)
